@@ -2,12 +2,24 @@
 //! simulated OS).  This is yvcommon::shell::run_shell with the system type
 //! `Rc<Concurrent<Faulty>>` instead of `Rc<Concurrent<VirtualSystem>>`; with
 //! no fault armed the wrapper is transparent.
+//!
+//! The body of the shell process is yvcommon::shell::shell_body with one
+//! difference: when the `interactive` option is on after start-up (`-i` on the
+//! command line) the commands are read by `interactive_read_eval_loop`, as
+//! yash_cli::run_as_shell_process does, so that the shell survives the errors
+//! an interactive shell survives (special built-in errors, `exec` of a utility
+//! that cannot be executed).  After the run the descriptor table and the files
+//! the shell process ended with are recorded as a last observation (`zz`).
 use crate::faulty::{self, Faulty};
 use crate::probe;
 use std::cell::RefCell;
 use std::rc::Rc;
 use yash_cli::startup::args::Parse;
+use serde_json::json;
+use std::ops::ControlFlow::{Break, Continue};
 use yash_env::Env;
+use yash_env::option::{Interactive, On};
+use yash_env::semantics::Divert;
 use yash_env::builtin::Type;
 use yash_env::path::PathBuf;
 use yash_env::semantics::ExitStatus;
@@ -33,6 +45,42 @@ pub struct RunCfg {
     pub cwd: String,
     pub step_limit: usize,
     pub tracked: &'static [&'static str],
+}
+
+/// yvcommon::shell::shell_body, choosing the read-eval loop as yash-cli does.
+async fn shell_body(env: &mut Env<FSys>, run: yash_cli::startup::args::Run) {
+    let work = yash_cli::startup::configure_environment(env, run).await;
+    shell::register_generic_probes(env);
+    probe::register(env);
+    let is_interactive = env.options.get(Interactive) == On;
+    let ref_env = RefCell::new(env);
+    let lexer = match yash_cli::startup::input::prepare_input(&ref_env, &work.source).await {
+        Ok(lexer) => lexer,
+        Err(e) => {
+            use yash_env::system::concurrency::WriteAll as _;
+            let mut env = ref_env.borrow_mut();
+            let message = format!("yash: {e}\n");
+            env.system.print_error(&message).await;
+            env.exit_status = ExitStatus::NOT_FOUND;
+            return;
+        }
+    };
+    let result = if is_interactive {
+        yash_semantics::interactive_read_eval_loop(&ref_env, &mut { lexer }).await
+    } else {
+        yash_semantics::read_eval_loop(&ref_env, &mut { lexer }).await
+    };
+    let env = ref_env.into_inner();
+    env.apply_result(result);
+    match result {
+        Continue(())
+        | Break(Divert::Continue { .. })
+        | Break(Divert::Break { .. })
+        | Break(Divert::Return(_))
+        | Break(Divert::Interrupt(_))
+        | Break(Divert::Exit(_)) => yash_semantics::trap::run_exit_trap(env).await,
+        Break(Divert::Abort(_)) => (),
+    }
 }
 
 pub fn run(cfg: RunCfg) -> ShellResult {
@@ -83,11 +131,7 @@ pub fn run(cfg: RunCfg) -> ShellResult {
     let sys2 = Rc::clone(&sys);
     let main_task = async move {
         let body = async move {
-            shell::shell_body(&mut env, run, |env| {
-                shell::register_generic_probes(env);
-                probe::register(env);
-            })
-            .await;
+            shell_body(&mut env, run).await;
             es2.set(env.exit_status.0);
         };
         RunLoop::run_loop(&*sys2, body).await;
@@ -104,7 +148,14 @@ pub fn run(cfg: RunCfg) -> ShellResult {
     }
     let stdout = shell::file_content(&state, "/dev/stdout").unwrap_or_default();
     let stderr = shell::file_content(&state, "/dev/stderr").unwrap_or_default();
-    let events = shell::EVENTS.with(|e| std::mem::take(&mut *e.borrow_mut()));
+    let mut events = shell::EVENTS.with(|e| std::mem::take(&mut *e.borrow_mut()));
+    if matches!(outcome, Outcome::Completed) {
+        // what the shell process ended with (the only observation there is of a
+        // shell that ends without running its EXIT trap)
+        events.push(json!({"ev": "obs", "tag": "zz", "pid": main_pid.0, "st": status,
+                           "tab": probe::table(&state, main_pid.0), "files": probe::files(&state),
+                           "wr": [], "fired": faulty::fired()}));
+    }
     probe::end_run();
     faulty::reset();
     let _: &Outcome = &outcome;
